@@ -9,6 +9,7 @@ import (
 	"crypto/sha256"
 	"encoding/hex"
 	"fmt"
+	"net/http"
 	"os"
 	"os/exec"
 	"sort"
@@ -204,6 +205,45 @@ func vfC09Register(s *Server, m vfC09Method) {
 
 type vfC09Config struct {
 	service, serverID, version string
+	http                       int // index into vfC09HTTPConfigs: how the HttpServer in front is configured
+}
+
+// HTTP-level configuration. None of it is part of the described surface, so
+// none of it may change what __describe__ serves.
+type vfC09HTTPConfig struct {
+	name  string
+	path  string
+	apply func(h *HttpServer)
+}
+
+var vfC09HTTPConfigs = []vfC09HTTPConfig{
+	{"default", "/__describe__", func(h *HttpServer) {}},
+	{"protocol-name", "/__describe__", func(h *HttpServer) { h.SetProtocolName("Display Title") }},
+	{"protocol-name=service", "/__describe__", func(h *HttpServer) { h.SetProtocolName("svc") }},
+	{"prefix", "/vgi/__describe__", func(h *HttpServer) { h.SetPrefix("/vgi") }},
+	{"pages-and-cors", "/__describe__", func(h *HttpServer) {
+		h.SetRepoURL("https://example.com/repo")
+		h.SetEnableLandingPage(false)
+		h.SetEnableDescribePage(false)
+		h.SetEnableNotFoundPage(false)
+		h.SetCorsOrigins("*")
+		h.SetCorsMaxAge(60)
+	}},
+	{"limits", "/__describe__", func(h *HttpServer) {
+		h.SetProducerBatchLimit(1)
+		h.SetMaxResponseBytes(1 << 30)
+		h.SetMaxRequestBytes(1 << 20)
+		h.SetCallStateCacheEntries(4)
+		_ = h.SetCompressionLevel(1)
+	}},
+	{"everything", "/api/__describe__", func(h *HttpServer) {
+		h.SetProtocolName("Another Title")
+		h.SetPrefix("/api")
+		h.SetRepoURL("https://example.com/repo")
+		h.SetCorsOrigins("https://a.example")
+		h.SetProducerBatchLimit(2)
+		h.SetAuthenticate(func(r *http.Request) (*AuthContext, error) { return Anonymous(), nil })
+	}},
 }
 
 func vfC09Build(order []vfC09Method, c vfC09Config) *Server {
@@ -427,8 +467,11 @@ func vfC09DescribePipe(s *Server) ([]byte, any) {
 	return out, pan
 }
 
-func vfC09DescribeHTTP(s *Server) ([]byte, int, any) {
-	rec, pan := vfArrowPost(NewHttpServer(s), "/__describe__", vfNoParamsReq("__describe__"))
+func vfC09DescribeHTTP(s *Server, hc int) ([]byte, int, any) {
+	h := NewHttpServer(s)
+	cfg := vfC09HTTPConfigs[hc]
+	cfg.apply(h)
+	rec, pan := vfArrowPost(h, cfg.path, vfNoParamsReq("__describe__"))
 	return rec.Body.Bytes(), rec.Code, pan
 }
 
@@ -436,6 +479,10 @@ func vfC09DescribeHTTP(s *Server) ([]byte, int, any) {
 func vfC09Check(x *venum.X, set []vfC09Method, c vfC09Config, allPerms bool) {
 	x.Note("set=%v config=%+v", set, c)
 	sizeCls := fmt.Sprintf("n%d", len(set))
+	httpCls := sizeCls
+	if c.http != 0 {
+		httpCls = "http-config=" + vfC09HTTPConfigs[c.http].name
+	}
 	perms := vfC09Perms(len(set))
 	if !allPerms {
 		perms = perms[:1]
@@ -457,7 +504,7 @@ func vfC09Check(x *venum.X, set []vfC09Method, c vfC09Config, allPerms bool) {
 			x.Failf("C09:pipe-response-shape", "%s (order %v)", prob, order)
 			return
 		}
-		httpBody, code, pan := vfC09DescribeHTTP(s)
+		httpBody, code, pan := vfC09DescribeHTTP(s, c.http)
 		if pan != nil {
 			x.Failf("C09:panic:http", "describe panicked on HTTP: %v (order %v)", pan, order)
 			return
@@ -468,7 +515,11 @@ func vfC09Check(x *venum.X, set []vfC09Method, c vfC09Config, allPerms bool) {
 			return
 		}
 		if hresp.key != resp.key || hresp.schema != resp.schema {
-			x.Failf("C09:pipe-vs-http:"+sizeCls, "describe differs between pipe and HTTP (order %v)\npipe: %s\nhttp: %s", order, resp.key, hresp.key)
+			x.Failf("C09:pipe-vs-http:"+httpCls, "describe differs between pipe and HTTP (order %v)\npipe: %s\nhttp: %s", order, resp.key, hresp.key)
+		}
+		// the payload served over HTTP must carry the digest of ITSELF
+		if ref := vfC09RefHash(hresp); ref != hresp.meta[MetaProtocolHash] {
+			x.Failf("C09:http-hash-vs-reference:"+httpCls, "order %v: hash served over HTTP %s, reference digest of the HTTP payload %s", order, hresp.meta[MetaProtocolHash], ref)
 		}
 		if pi == 0 {
 			vfC09CheckListing(x, set, c, resp, sizeCls)
@@ -653,7 +704,7 @@ var vfC09Configs = func() []vfC09Config {
 	for _, svc := range []string{"", "svc"} {
 		for _, id := range []string{"", "id"} {
 			for _, v := range []string{"", "1.2.3"} {
-				out = append(out, vfC09Config{svc, id, v})
+				out = append(out, vfC09Config{service: svc, serverID: id, version: v})
 			}
 		}
 	}
@@ -761,7 +812,7 @@ func TestVerif_C09(t *testing.T) {
 	// Space 2: sets of 3 methods, every permutation.
 	// quick: one spec per kind and position (7 per method); thorough: all 21.
 	per3 := venum.QT(7, 21)
-	cfg3 := []vfC09Config{{"", "", ""}, {"svc", "id", "1.2.3"}}
+	cfg3 := []vfC09Config{{}, {service: "svc", serverID: "id", version: "1.2.3"}}
 	venum.Explore(t, venum.Cfg{Name: "surface-3", Shardable: true}, func(x *venum.X) {
 		var set []vfC09Method
 		v0 := x.Choose(per3, "spec0")
@@ -786,9 +837,36 @@ func TestVerif_C09(t *testing.T) {
 				v := x.Choose(7, fmt.Sprintf("kind%d", i))
 				set = append(set, spec(vfC09Names[i], v+7*((v+i)%3)))
 			}
-			vfC09Check(x, set, vfC09Config{"svc", "id", "1.2.3"}, true)
+			vfC09Check(x, set, vfC09Config{service: "svc", serverID: "id", version: "1.2.3"}, true)
 		})
 	}
+
+	// Space "http-config": the HttpServer in front of the Server is configured in
+	// every way the alphabet knows (display name, URL prefix, pages, CORS, limits,
+	// authenticator, all at once); none of it belongs to the described surface,
+	// so the HTTP response must stay the pipe response and carry its own digest.
+	// Sets of 0..2 methods x every server configuration x every HTTP configuration.
+	venum.Explore(t, venum.Cfg{Name: "http-config", Shardable: true}, func(x *venum.X) {
+		hc := 1 + x.Choose(len(vfC09HTTPConfigs)-1, "http-config")
+		k := x.Choose(3, "size")
+		var set []vfC09Method
+		if k >= 1 {
+			v := x.Choose(7, "kind0") // one spec per kind, bundle tied to the kind
+			set = append(set, spec(vfC09Names[x.Choose(len(vfC09Names), "name0")], v+7*(v%3)))
+		}
+		if k == 2 {
+			other := "é"
+			if set[0].name == "é" {
+				other = "Z"
+			}
+			v := []int{0, 3, 6}[x.Choose(3, "kind1")] // Unary, ProducerWithHeader, DynamicStreamWithHeader
+			set = append(set, spec(other, v+7*((v+1)%3)))
+		}
+		c := vfC09Configs[x.Choose(len(vfC09Configs), "config")]
+		c.http = hc
+		x.Note("http-config=%s", vfC09HTTPConfigs[hc].name)
+		vfC09Check(x, set, c, true)
+	})
 
 	// Space "fingerprint-twins": two methods whose explicit schemas differ only in
 	// what Schema.Fingerprint()/Schema.Equal ignore, every ordered pair of
